@@ -96,6 +96,10 @@ class Gamma:
             parts.append("<mosPayload>%s</mosPayload>" % self.join(pay, 4))
             return "<mosExternalMetadata>%s</mosExternalMetadata>" % self.join(parts, 3)
         if tag == "p":
+            if tok.startswith("e:"):            # an empty paragraph
+                return "<p/>" if r.random() < 0.5 else "<p></p>"
+            if tok.startswith("w:"):            # a whitespace-only paragraph
+                return "<p>  \t </p>"
             return "<p>%s %s</p>" % (escape(self.text(r)), escape(tok))
         if tag == "roDelete":
             return "<roDelete><roID>RO1</roID>%s</roDelete>" % self.marker(tok)
@@ -147,7 +151,16 @@ class Gamma:
 
     def msg(self, m, message_id=2000, ro_id="RO1"):
         cls = m["cls"]
-        head = ["<mosID>mos.verif</mosID>", "<ncsID>ncs.verif</ncsID>", "<messageID>%d</messageID>" % message_id]
+        # the envelope of a message is not the envelope of the running order: vary its header elements
+        rh = self.rng("envelope", cls, message_id)
+        head = ["<mosID>mos.verif</mosID>"]
+        if rh.random() < 0.6:
+            head.append("<ncsID>ncs.verif</ncsID>")
+        head.append("<messageID>%d</messageID>" % message_id)
+        if rh.random() < 0.3:
+            head.append("<mosMsgTime>2020-01-01T10:00:00</mosMsgTime>")
+        if rh.random() < 0.2:
+            head.insert(0, "<mosDevice>dev &amp; co</mosDevice>")
         roid = "<roID>%s</roID>" % escape(ro_id)
         kids = lambda: [self.child(c, depth=3) for c in m["carried"]]
         ea = None
